@@ -50,6 +50,13 @@ VARIANTS = {
                    "-fsanitize=address,bounds,pointer-overflow,null,alignment,vla-bound" + FLOAT_SAN,
                    "-fno-sanitize-recover=all"],
     "tsan": ["-O1", "-g", "-fsanitize=thread"],
+    # C08's uninitialised-memory oracle: the flags of "plain" + every automatic variable without an initialiser (class objects and
+    # their members included) is filled with zeroes / with the byte 0xFE before its constructor runs; a program that never reads an
+    # indeterminate value computes the same results in both builds.  -fno-lifetime-dse: g++ 12 at -O1 otherwise deletes the PATTERN
+    # fill of an object with a constructor as a dead store (the constructor starts with a clobber of *this); measured on a
+    # 4-line example: without the flag the members the constructor leaves alone keep the dead stack content
+    "autozero": ["-O1", "-ftrivial-auto-var-init=zero", "-fno-lifetime-dse"],
+    "autopattern": ["-O1", "-ftrivial-auto-var-init=pattern", "-fno-lifetime-dse"],
 }
 # part of the library cache key: bump the tag of a variant whenever its flags change (the key is
 # otherwise only the hash of /repo's sources + the variant name, and a stale library would be reused)
